@@ -246,6 +246,15 @@ class Ctx:
 
     # -- reporting --------------------------------------------------------
     def finish(self) -> int:
+        # one would-be violation that a fresh interpreter does not reproduce is a glitch (counted in the evidence);
+        # several in one run mean that the answers depend on what the process did before — state carried from one
+        # call to the next — which no property allows
+        unrep = self.cov.get("unreproduced", [])
+        if len(unrep) >= 3:
+            self.violation(f"{len(unrep)} would-be violations did not reproduce in fresh interpreters: the answers are "
+                           f"not a function of the request (state carried over between calls in one process?), "
+                           f"e.g. {unrep[0].get('first_verdict', '')[:160]}",
+                           {"input": {"unreproduced": unrep[:5]}}, key=("unreproduced", self.prop))
         self.cov["distinct_nontrivial"] = len(self._distinct)
         self.cov["input_distribution"] = self.dist
         self.cov["known_finding_cases"] = getattr(self, "known_count", 0)
